@@ -326,8 +326,8 @@ Lemma ss_rp_lock_keys : forall c s a b v s', ss_rp_lock c s a b v = Some s' -> s
 Proof. unfold ss_rp_lock; intros c s a b v s' H. guard_inv H. bind_as H s1 E. bind_as H x Ex. inversion H; subst. apply ss_lock_from_keys in E. rewrite <- E. reflexivity. Qed.
 Lemma ss_rp_unlock_keys : forall c s a s', ss_rp_unlock c s a = Some s' -> st_keys s' = st_keys s.
 Proof. unfold ss_rp_unlock; intros c s a s' H. bind_as H v E. bind_as H s1 E1. inversion H; subst. apply ss_transfer_keys in E1. rewrite <- E1. reflexivity. Qed.
-Lemma ss_add_assigner_keys : forall c s a n i t s', ss_add_assigner c s a n i t = Some s' -> st_keys s' = st_keys s.
-Proof. unfold ss_add_assigner; intros c s a n i t s' H. guard_inv H. bind_as H x E. guard_inv H. bind_as H y Ey. guard_inv H. inversion H; reflexivity. Qed.
+Lemma ss_add_assigner_keys : forall c s a n k i t s', ss_add_assigner c s a n k i t = Some s' -> st_keys s' = st_keys s.
+Proof. unfold ss_add_assigner; intros c s a n k i t s' H. guard_inv H. bind_as H x E. guard_inv H. bind_as H y Ey. guard_inv H. inversion H; reflexivity. Qed.
 
 Lemma ss_kill_keys : forall c s a b s', ss_kill c s a b = Some s' -> st_keys s' = st_keys s.
 Proof.
